@@ -72,7 +72,7 @@ TCreate == /\ l > 1 /\ Is("create") /\ Adv
 
 TOp == /\ l > 1 /\ l <= Len(T) /\ E.op \in {"write", "overwrite", "clear", "clearn"} /\ Adv
        /\ Check(tid, l, "H.domain", "", InDomain(E.op, E.s, E.n))
-       /\ LET e == Effect(E.op, E.s, E.lines, E.n) IN
+       /\ \E e \in {Effect(E.op, E.s, E.lines, E.n)} :
           /\ content' = e.pc /\ plog' = e.pl /\ secs' = e.a.secs
           /\ term' = ApplyOps(term, E.ops)
           /\ last' = Event(E.op, E.s, E.lines, E.n, E.ops)
